@@ -234,6 +234,14 @@ pub fn parse(pasted: &[PastedLine]) -> RefProgram {
                 }
             }
         }
+        if flow == Flow::Ecall && ecall_number.is_none() && !runtime_number && p.instrs.len() >= 2 {
+            // ... or the number is loaded from a buffer that a service has just filled:
+            //   li a7, 8; ecall (ReadString into the buffer at a0); lw a7, 0(sp); ecall
+            let k = p.instrs.len();
+            let (ld, fill) = (&p.instrs[k - 1], &p.instrs[k - 2]);
+            let loads_a7 = ld.mnemonic == "lw" && ld.operands.len() == 2 && (ld.operands[0] == "a7" || ld.operands[0] == "x17") && matches!(ld.operands[1].as_str(), "0(sp)" | "0(x2)");
+            runtime_number = loads_a7 && fill.flow == Flow::Ecall && matches!(fill.ecall_number, Some(8 | 63));
+        }
         // interrupt handler installation: `la R, L` directly before a csr write to utvec (5)
         if matches!(mn.as_str(), "csrrw" | "csrw") {
             let csr_is_utvec = ops.iter().any(|o| o == "utvec" || o == "5");
